@@ -44,6 +44,10 @@ CHECKS = {
          "Exploration: every document the C01 generators can make oal emit (typed, loose, shadowing, mutant programs; one in three merged into a generated base) is re-parsed and walked by R-val: $refs resolve inside the document, path variables match required path parameters exactly, response keys are legal, operationIds are distinct, and the YAML parses back to the same OpenAPI value. Collisions of two synthesised operationIds are the known finding F10.",
          "R-val is written from the OpenAPI 3.0 text; `default` is accepted as a Responses key; duplicate ids involving a user-written id are outside the domain and counted.",
          "DESIGN.md §4 C03"),
+ "C05": ("metamorphic testing: generated programs x sequences of meaning-preserving rewrites on the generator's AST; document equivalence of original and rewritten sources",
+         "Exploration: each accepted strict-fragment program is rewritten by 1-4 tape-chosen steps (parenthesise, name / inline a let, wrap in / abstract out a single-use function, rename binders to fresh or legally shadowing names incl. all locals at once, permute statements, random trivia, move a dependency-closed group into a new qualified or unqualified module) and recompiled; it must stay accepted and emit an R-eq document. No reference semantics is involved.",
+         "Rewrite sites for naming/wrapping are restricted to positions that inherit no annotations (elsewhere eager evaluation makes the step observable by the language's own rules); X4 programs (known order dependence F9) are outside the domain and counted.",
+         "DESIGN.md §4 C05"),
  "C06": ("process-level and in-process differential: byte equality of the output across fresh processes, repeated compilations and threads",
          "Exploration: generated programs rich in references, rec instantiations, examples and modules are compiled by the real oal-cli 8 (quick) / 24 (thorough) times as fresh processes - each with its own hash seeds - and 6-7 times in one process interleaved with other compilations plus once on a new thread; any byte difference is a violation.",
          "Hash seeds are sampled by starting processes, not enumerated; time is not varied (nothing in the pipeline reads the clock).",
